@@ -314,7 +314,9 @@ class GenericCheck(Check):
         key, path_segments = path_segments[0], path_segments[1:]
         try:
             test_value = test_value[key]
-        except KeyError:
+        except (KeyError, TypeError):
+            # Either the key is missing or the path runs into something
+            # that is not a container; neither can match
             return False
         if isinstance(test_value, list):
             for val in test_value:
@@ -337,7 +339,9 @@ class GenericCheck(Check):
             test_value = ast.literal_eval(self.kind)
             return match == str(test_value)
 
-        except ValueError:
+        except (ValueError, TypeError, SyntaxError, MemoryError,
+                RecursionError):
+            # Not a literal; treat it as an attribute path of the creds
             pass
 
         path_segments = self.kind.split('.')
